@@ -29,7 +29,8 @@
            (HexGrid.getIndicesFromRingAndPos docstring picture: position 1 is the upper-right cell);
          - the neighbours of c are the cells whose centre is exactly one pitch from c's, listed
            counter-clockwise by polar angle starting with c + <<1,0>> ("beginning from the 30 or 60 degree
-           direction", getNeighboringCellIndices docstring).
+           direction", getNeighboringCellIndices docstring): NbVecIn(o).  Its value is written out once as
+           NbVec and proven equal to the geometric definition for both orientations (ThmNbVecIsGeometric).
    (2) Transcriptions of the code's arithmetic (Code* operators), line by line:
          CodeRingPos      <- HexGrid.indicesToRingPos            (six edge branches, positionBase + offset)
          CodeFromRingPos  <- HexGrid._indicesAndEdgeFromRingAndPos (divmod(pos, ring), six edge branches)
@@ -100,28 +101,42 @@ AngBefore(o, s, a, b) == BeforeV(o, XY(o, s), XY(o, a), XY(o, b))
 (* ------------------------------------------ ring / position (reference) ------------------------------------------ *)
 RingStart(r) == <<r - 1, 0>>
 \* 1 + number of cells of the same ring whose polar angle, counted from the ring's start cell, is smaller
+\* (BeforeV(o, S, D, C) written out so that the half-plane of c is evaluated once)
 PosIn(o, c) == IF c = <<0, 0>> THEN 1
                ELSE LET r  == Ring(c)
                         S  == XY(o, RingStart(r))
                         C  == XY(o, c)
-                    IN 1 + Cardinality({d \in RingCells(r) : BeforeV(o, S, XY(o, d), C)})
+                        hc == HalfV(o, S, C)
+                    IN 1 + Cardinality({d \in RingCells(r) :
+                                           LET Dv == XY(o, d)
+                                               hd == HalfV(o, S, Dv)
+                                           IN hd < hc \/ (hd = hc /\ CrossV(Dv, C) > 0)})
 RingPosIn(o, c) == <<Ring(c), PosIn(o, c)>>
 RingPos(c) == RingPosIn("flats", c)
 NumInRing(r) == Cardinality(RingCells(r))
 ValidRingPos(r, p) == r >= 1 /\ p \in 1..NumInRing(r)
-FromRingPos(r, p) == CHOOSE c \in RingCells(r) : PosIn("flats", c) = p
+\* the cell c of ring r with PosIn("flats", c) = p; the ring's cells, plane vectors and half-planes are
+\* evaluated once (tr = <<cell, XY, half>>), the rank of a cell is counted exactly as in PosIn
+FromRingPos(r, p) ==
+    IF r = 1 THEN (CHOOSE c \in RingCells(1) : p = 1)
+    ELSE LET S  == XY("flats", RingStart(r))
+             tr == {<<c, XY("flats", c), HalfV("flats", S, XY("flats", c))>> : c \in RingCells(r)}
+             rank(t) == 1 + Cardinality({u \in tr : u[3] < t[3] \/ (u[3] = t[3] /\ CrossV(u[2], t[2]) > 0)})
+         IN (CHOOSE t \in tr : rank(t) = p)[1]
 
 (* ------------------------------------------ neighbours (reference) ------------------------------------------ *)
 \* XY is linear, so the cells one pitch from c are c + v for the lattice vectors v of length one pitch
 \* (|v| = pitch forces |i|,|j| <= 2, hence Box(2)).
 NbVecSet(o) == {v \in Box(2) : Len2(o, v) = Pitch2}
-\* rank of a neighbour direction when turning counter-clockwise from the <<1,0>> step
-NbRank(o, v) == 1 + Cardinality({e \in NbVecSet(o) : AngBefore(o, <<1, 0>>, e, v)})
-NbVecIn(o) == [k \in 1..Cardinality(NbVecSet(o)) |-> CHOOSE v \in NbVecSet(o) : NbRank(o, v) = k]
-NbVecFlats   == NbVecIn("flats")            \* zero-arity constants: TLC evaluates them once
-NbVecCorners == NbVecIn("corners")
-NbVec(o) == IF o = "flats" THEN NbVecFlats ELSE NbVecCorners
-NeighboursIn(o, c) == [k \in 1..Len(NbVec(o)) |-> CAdd(c, NbVec(o)[k])]
+\* the geometric definition: those vectors sorted counter-clockwise by polar angle, starting with the <<1,0>> step
+NbVecIn(o) == LET S == NbVecSet(o)
+                  rank(v) == 1 + Cardinality({e \in S : AngBefore(o, <<1, 0>>, e, v)})
+              IN [k \in 1..Cardinality(S) |-> CHOOSE v \in S : rank(v) = k]
+\* ... and its value, written out so that TLC does not re-derive it on every use.  ThmNbVecIsGeometric (checked once
+\* by HexLattice_mc) proves that this list IS NbVecIn(o) for both orientations.
+NbVec == << <<1, 0>>, <<0, 1>>, <<-1, 1>>, <<-1, 0>>, <<0, -1>>, <<1, -1>> >>
+ThmNbVecIsGeometric == \A o \in Orients : NbVecIn(o) = NbVec
+NeighboursIn(o, c) == [k \in 1..6 |-> CAdd(c, NbVec[k])]      \* the same for both orientations (ThmNbVecIsGeometric)
 Neighbours(c) == NeighboursIn("flats", c)
 
 (* ------------------------------------------ counting (reference) ------------------------------------------ *)
@@ -211,7 +226,7 @@ ThmNeighbours(o, c) ==
        /\ XY(o, v(1))[1] > 0 /\ XY(o, v(1))[2] > 0
 ThmOrientationFree(c) ==
     /\ RingPosIn("flats", c) = RingPosIn("corners", c)
-    /\ NeighboursIn("flats", c) = NeighboursIn("corners", c)
+    /\ NeighboursIn("flats", c) = NeighboursIn("corners", c)       \* by ThmNbVecIsGeometric
 \* the code's arithmetic is the geometric definition
 ThmCodeRingPos(c) == CodeRingPos(c) = RingPos(c)
 ThmCodeFromRingPos(c) == LET rp == RingPos(c) IN CodeFromRingPos(rp[1], rp[2]) = c
